@@ -137,49 +137,92 @@ def check_reactors(report, db, P, R3):
     init = db.own_method(base, '__init__')
     if init is None:
         raise AnalysisError('PacketReactor.__init__ vanished')
-    comp = None
-    for n in ast.walk(init.node):
-        if isinstance(n, ast.Assign) and any(
-                isinstance(t, ast.Attribute) and t.attr == 'clientbound_packets'
-                for t in n.targets):
-            comp = n
-    if comp is None:
+    # the id table, read off the path summaries of __init__: whether it is
+    # written as a dict comprehension, a dict(...) of pairs or a loop that
+    # fills a dict does not matter
+    from ..callgraph import CallGraph
+    from .. import shared as _shared
+    from ..pathsum import struct, show
+    S = _shared.summariser(db, CallGraph(db))
+    me = ('sym', init.params[0])
+    nstores = 0
+    for p in S.run(init):
+        if not p.returns:
+            continue
+        st = [e for e in p.flat(('store',)) if struct(e.base) == me
+              and e.attr == 'clientbound_packets']
+        if len(st) != 1:
+            raise AnalysisError('store to clientbound_packets not found in '
+                                'PacketReactor.__init__', init.node,
+                                rel(init.path))
+        nstores += 1
+        v = st[0].value
+        it = key = val = None
+        if v[0] == 'op' and v[1] in ('dictcomp',) and len(v[2][0][1]) == 1 \
+                and len(v[2][1][1]) == 1:
+            it = v[2][0][1][0]
+            key, val = v[2][1][1][0][1]
+        elif v[0] == 'op' and v[1] == 'dict' and len(v[2]) == 1 and \
+                v[2][0][0] == 'op' and v[2][0][1] in ('genexp', 'listcomp') \
+                and len(v[2][0][2][1][1]) == 1:
+            g = v[2][0]
+            it = g[2][0][1][0]
+            pair = g[2][1][1][0][1][0]
+            if pair[0] == 'tuple' and len(pair[1]) == 2:
+                key, val = pair[1]
+        elif v[0] == 'phi':
+            for lp in [e for e in p.events if e.kind == 'loop']:
+                pre = (lp.pre or {}).get(v[1])
+                if pre != ('dict', ()):
+                    continue
+                ph = (lp.phis or {}).get(v[1])
+                for q in lp.paths:
+                    sets = [e for e in q.flat(('setitem',)) if e.base == ph]
+                    others = [e for e in q.flat(('setitem', 'delitem',
+                                                 'call'))
+                              if e not in sets and any(
+                                  t == ph for t in [e.base] + list(
+                                      e.args or ()) if t is not None)]
+                    if len(sets) == 1 and not others and \
+                            q.outcome[0] in ('fall', 'continue'):
+                        it = lp.ctx
+                        key, val = sets[0].key, sets[0].value
+        good = False
+        why = 'the id table is %s: not a mapping built from ' \
+            'get_clientbound_packets(context)' % show(v)[:120]
+        if it is not None and key is not None:
+            el = val
+            key_ok = key[0] == 'call' and key[1][0] == 'attr' and \
+                key[1][2] == 'get_id' and key[1][1] == el and \
+                len(key[2]) == 1 and el[0] == 'elem'
+            it_ok = it[0] == 'call' and it[1][0] in ('attr', 'fn') and (
+                it[1][2] == 'get_clientbound_packets'
+                if it[1][0] == 'attr' else
+                it[1][1].name == 'get_clientbound_packets') and \
+                len(it[2]) == 1 and el[0] == 'elem' and \
+                struct(el[1]) == struct(it)
+            ctx_ok = key_ok and it_ok and struct(key[2][0]) == \
+                struct(it[2][0]) and struct(it[2][0]) in (
+                    ('attr', ('attr', me, 'connection'), 'context'),
+                    ('attr', ('sym', init.params[1]), 'context'))
+            if key_ok and it_ok and ctx_ok:
+                good = True
+            else:
+                why = ('key is get_id(ctx) of the element: %s, iterates '
+                       'get_clientbound_packets(ctx) and maps to the '
+                       'element: %s, same context of this connection: %s'
+                       % (key_ok, it_ok, ctx_ok))
+        if good:
+            report.ok(R3, 'PacketReactor.__init__: {p.get_id(ctx): p for p '
+                      'in get_clientbound_packets(ctx)}, ctx = '
+                      'connection.context')
+        else:
+            report.violation(R3, 'reactor-dict', init.path, st[0].node,
+                             'PacketReactor.__init__', why)
+    if not nstores:
         raise AnalysisError('store to clientbound_packets not found in '
                             'PacketReactor.__init__', init.node,
                             rel(init.path))
-    val = comp.value
-    good = False
-    why = 'not a dict comprehension over get_clientbound_packets(context)'
-    if isinstance(val, ast.DictComp) and len(val.generators) == 1:
-        g = val.generators[0]
-        if isinstance(g.target, ast.Name) and not g.ifs:
-            var = g.target.id
-            key_ok = (isinstance(val.key, ast.Call)
-                      and isinstance(val.key.func, ast.Attribute)
-                      and val.key.func.attr == 'get_id'
-                      and isinstance(val.key.func.value, ast.Name)
-                      and val.key.func.value.id == var
-                      and len(val.key.args) == 1)
-            val_ok = isinstance(val.value, ast.Name) and val.value.id == var
-            it = g.iter
-            it_ok = (isinstance(it, ast.Call)
-                     and isinstance(it.func, ast.Attribute)
-                     and it.func.attr == 'get_clientbound_packets'
-                     and len(it.args) == 1)
-            same_ctx = key_ok and it_ok and \
-                ast.dump(val.key.args[0]) == ast.dump(it.args[0])
-            if key_ok and val_ok and it_ok and same_ctx:
-                good = True
-            else:
-                why = ('key is get_id(ctx) of the element: %s, value is the '
-                       'element: %s, iterates get_clientbound_packets(ctx): '
-                       '%s, same context expression: %s'
-                       % (key_ok, val_ok, it_ok, same_ctx))
-    if good:
-        report.ok(R3, 'PacketReactor.__init__: ' + ast.unparse(val)[:120])
-    else:
-        report.violation(R3, 'reactor-dict', init.path, comp,
-                         'PacketReactor.__init__', why)
     want = {'LoginReactor': 'login', 'PlayingReactor': 'play',
             'StatusReactor': 'status', 'PacketReactor': 'handshake',
             'PlayingStatusReactor': 'status'}
